@@ -76,7 +76,8 @@ class DataLoader:
     
     def __iter__(self):
         self.step = 0
-        return self
+        # every pass gets its own cursor, so nested and interleaved passes over one loader are independent
+        return (self.__getitem__(i) for i in range(self.__len__()))
     
     def __next__(self):
         if self.step < self.__len__():
